@@ -316,3 +316,56 @@ func ZZ_C05_A1_block_signature_verdicts_stay_with_their_transaction() {
 		}
 	}
 }
+
+// C05 / A2 for validator management: who may sign for a validator, and whose key the handlers see.
+//   - the real GetAuthorizedSignersFor for unstake / pause / unpause / edit-stake names exactly the
+//     validator's operator address and its output address (one address when they coincide) and
+//     nobody else; a stake message is authorized for the new validator's address and its output
+//   - the real PopulateSpecialMessageFields writes the VERIFIED signer into MessageStake.Signer /
+//     MessageEditStake.Signer - the account the handlers debit - whatever the message claimed
+//
+//zz:harness mode=int unwind=60 maxpaths=40000 timebudget=900 replay=model
+//zz:reach A2.val.done
+func ZZ_C05_A2_validator_messages_authorized_for_operator_and_owner_only() {
+	sm, _ := zzFSM(5)
+	out := zzConcrete(zzInt("output"), 0, 1) // custodial (output = operator) or not
+	v := &Validator{Address: zzAddr(0), PublicKey: zzAddr(4), StakedAmount: 10, Committees: []uint64{1}, Output: zzAddr(out)}
+	supply := &Supply{}
+	if sm.SetValidators([]*Validator{v}, supply) != nil || sm.SetSupply(supply) != nil {
+		panic("world")
+	}
+	sm.ResetCaches()
+	var msg lib.MessageI
+	switch zzConcrete(zzInt("kind"), 0, 3) {
+	case 0:
+		msg = &MessageUnstake{Address: zzAddr(0)}
+	case 1:
+		msg = &MessagePause{Address: zzAddr(0)}
+	case 2:
+		msg = &MessageUnpause{Address: zzAddr(0)}
+	case 3:
+		msg = &MessageEditStake{Address: zzAddr(0), Signer: zzAddr(2)}
+	}
+	who, err := sm.GetAuthorizedSignersFor(msg)
+	zzAssert("A2.val.signers-resolved", err == nil)
+	hasOp, hasOut := false, false
+	for _, w := range who {
+		isOp, isOut := bytes.Equal(w, zzAddr(0)), bytes.Equal(w, zzAddr(out))
+		zzAssert("A2.val.only-operator-or-owner-may-sign", isOp || isOut)
+		hasOp, hasOut = hasOp || isOp, hasOut || isOut
+	}
+	zzAssert("A2.val.operator-and-owner-may-sign", hasOp && hasOut)
+	// the Signer field the handlers debit is the verified signer, not what the message claimed
+	verified := crypto.NewAddress(zzAddr(1))
+	stake := &MessageStake{PublicKey: zzAddr(5), Signer: zzAddr(2), OutputAddress: zzAddr(2)}
+	edit := &MessageEditStake{Address: zzAddr(0), Signer: zzAddr(2)}
+	tx := &lib.Transaction{MessageType: MessageStakeName}
+	sm.PopulateSpecialMessageFields(tx, verified, stake)
+	sm.PopulateSpecialMessageFields(tx, verified, edit)
+	zzAssert("A2.val.stake-signer-is-the-verified-signer", bytes.Equal(stake.Signer, zzAddr(1)))
+	zzAssert("A2.val.edit-stake-signer-is-the-verified-signer", bytes.Equal(edit.Signer, zzAddr(1)))
+	// a stake message: the new validator's own address (derived from its key) and the output address
+	whoS, errS := sm.GetAuthorizedSignersFor(stake)
+	zzAssert("A2.val.stake-signers-resolved", errS == nil && len(whoS) == 2 && bytes.Equal(whoS[0], zzAddr(5)) && bytes.Equal(whoS[1], zzAddr(2)))
+	zzReach("A2.val.done")
+}
